@@ -50,6 +50,31 @@ Definition seg := (segk * list xq)%type.
 Definition valid_path_len (s : list seg) : bool := (2 <=? length s)%nat.
 Definition valid_path_start (s : list seg) : bool := match s with (SM, _) :: _ => true | _ => false end.
 Definition valid_path_coords (s : list seg) : bool := forallb (fun sg => all_finite (snd sg)) s.
+(* never two moves in a row (PathBuilder::move_to overwrites a trailing MoveTo; Proofs/PathValid.v) *)
+Definition seg_is_move (sg : seg) : bool := match fst sg with SM => true | _ => false end.
+Fixpoint valid_path_moves (s : list seg) : bool :=
+  match s with
+  | a :: r => match r with b :: _ => negb (seg_is_move a && seg_is_move b) && valid_path_moves r | [] => true end
+  | [] => true
+  end.
+
+(* filter primitive parameters (second pass of extension round 4; producers: Proofs/FilterPar.v, Proofs/ObbFilter.v).
+   kind 1: numbers that must be finite and not negative (stdDeviation, feMorphology radius, baseFrequency)
+   kind 2: feConvolveMatrix [columns; rows; targetX; targetY; number of kernel entries; divisor]
+   kind 3: specularExponent of feSpecularLighting, inside [1, 128] *)
+Definition xq_is (x : xq) (q : Q) : bool := match x with Fin v => Qeqb v q | _ => false end.
+Definition valid_fe_par (kind : N) (vals : list xq) : bool :=
+  match kind with
+  | 1%N => forallb xq_nonneg vals
+  | 2%N => match vals with
+           | [Fin c; Fin r; Fin tx; Fin ty; Fin n; d] =>
+               Qltb 0 c && Qltb 0 r && Qleb 0 tx && Qltb tx c && Qleb 0 ty && Qltb ty r && Qeqb n (c * r)
+               && xq_finite d && negb (xq_is d 0)
+           | _ => false
+           end
+  | 3%N => match vals with [Fin e] => Qleb 1 e && Qleb e 128 | _ => false end
+  | _ => true
+  end.
 
 (* text: a span lies on character boundaries inside its chunk (chunk text given as UTF-8 bytes) *)
 Local Open Scope N_scope.
@@ -78,7 +103,8 @@ Inductive vn :=
 | VClip (ts : list xq) (sub : list vn)                         (* sub: linked clip path, root group *)
 | VMask (rect : xrect) (sub : list vn)                         (* sub: linked mask, root group *)
 | VFilter (rect : xrect) (prims : list vn)
-| VPrim (rect : xrect) (sub : list vn)                         (* sub: feImage root *)
+| VPrim (rect : xrect) (sub : list vn)                         (* sub: feImage root, parameters *)
+| VFePar (kind : N) (vals : list xq)                           (* parameters of a filter primitive *)
 | VPath (abs_ts : list xq) (paints : list vn) (segs : list seg)
 | VSegs (segs : list seg)                                      (* path data without a node (textPath) *)
 | VFill (paint : list vn)
@@ -107,8 +133,10 @@ Fixpoint why (v : vn) : list N :=
   | VPrim rect sub => chk (valid_region rect) 2 ++ whys sub
   | VPath abs_ts paints segs =>
       chk (valid_ts abs_ts) 1 ++ chk (valid_path_len segs) 10 ++ chk (valid_path_start segs) 11
-      ++ chk (valid_path_coords segs) 12 ++ whys paints
+      ++ chk (valid_path_coords segs) 12 ++ chk (valid_path_moves segs) 17 ++ whys paints
   | VSegs segs => chk (valid_path_len segs) 10 ++ chk (valid_path_start segs) 11 ++ chk (valid_path_coords segs) 12
+                  ++ chk (valid_path_moves segs) 17
+  | VFePar kind vals => chk (valid_fe_par kind vals) (if N.eqb kind 2 then 19 else 18)
   | VFill paint => whys paint
   | VStroke w m d paint => chk (valid_width w) 3 ++ chk (valid_miter m) 4 ++ chk (valid_dash d) 5 ++ whys paint
   | VColor => []
